@@ -671,14 +671,15 @@ class SymPyBool(SymBool):
     __class__ = bool
 
 # datetime units: ticks per day for D; relation between units
-_UNIT_FACTOR = {"D": 86400 * 10**6, "h": 3600 * 10**6, "m": 60 * 10**6, "s": 10**6, "ms": 1000, "us": 1}
+import fractions as _fr
+_UNIT_FACTOR = {"D": 86400 * 10**6, "h": 3600 * 10**6, "m": 60 * 10**6, "s": 10**6, "ms": 1000, "us": 1, "ns": _fr.Fraction(1, 1000)}
 
 def unit_ratio(fm, to):
     """integer k such that ticks_to = ticks_fm * k  (fm coarser than or equal to `to`)."""
-    a, b = _UNIT_FACTOR[fm], _UNIT_FACTOR[to]
-    if a % b:
+    r = _fr.Fraction(_UNIT_FACTOR[fm]) / _fr.Fraction(_UNIT_FACTOR[to])
+    if r.denominator != 1:
         raise ModelGap(f"datetime unit conversion {fm}->{to} (to coarser unit)")
-    return a // b
+    return int(r)
 
 def _is_nat(e):
     t = z3.simplify(e == INT64_MIN)
